@@ -43,7 +43,7 @@ def descend(draw, p, type_, depth=0, for_write=False, want_leaf=False):
         ms = _visible_members(p, type_)
         if not ms:
             break
-        if path and not want_leaf and draw(st.integers(0, 3)) == 0:
+        if path and not want_leaf and draw(st.integers(0, 2)) == 0:
             break
         m = draw(st.sampled_from(ms))
         idx = None
